@@ -425,9 +425,13 @@ def oracle_filters(rng, n, stats, props, kinds=('size', 'prefix', 'position', 's
             for (b, rs) in rp:
                 lt, rt = ts.tokens(ls, cur), ts.tokens(rs, cur)
                 both_empty = not lt and not rt
-                dropped_pair = bool(f.filter_pair(ls, rs))
-                in_tables = (a, b) in kept
                 case = filter_case(kind, d, ts, dict(case0, pair=[cell(a), cell(b)], strings=[ls, rs], n_jobs=nj))
+                try:
+                    dropped_pair = bool(f.filter_pair(ls, rs))
+                except Exception as e:   # noqa: BLE001
+                    v.append(viol('C15', 'valid %s filter_pair call raised %s: %s' % (kind, type(e).__name__, str(e)[:100]), case))
+                    continue
+                in_tables = (a, b) in kept
                 if kind == 'overlap':
                     ov = len(set(lt) & set(rt))
                     exact = bool(ls) and bool(rs) and OPS[f.comp_op](ov, f.overlap_size)
